@@ -85,11 +85,42 @@ fn gen_cmd(rng: &mut Rng) -> Cmd {
     }
 }
 
+/// one_pass sessions: messages are drained once every stream has seen them, so the interesting
+/// histories are orders of resume / pause / stream creation / stop relative to the drain
+fn gen_one_pass_cmd(rng: &mut Rng) -> Cmd {
+    match rng.weighted(&[20, 20, 28, 14, 8, 10]) {
+        0 => Cmd::Resume,
+        1 => Cmd::Pause,
+        2 => {
+            let body = match rng.below(5) {
+                0 => r#"{"one_pass":true}"#.to_string(),
+                1 => format!(r#"{{"window":[0,{}],"one_pass":true,"binary":{}}}"#, 1 + rng.below(500), rng.bool()),
+                2 => format!(r#"{{"window":[{},{}],"one_pass":true,"binary":true,"filters":[{{"type":0,"ecu":"ECU0"}}]}}"#, rng.below(20), 20 + rng.below(400)),
+                3 => format!(r#"{{"window":[0,{}],"one_pass":true,"filters":[{{"type":1,"apid":"APP1"}}]}}"#, 1 + rng.below(500)),
+                _ => r#"{"window":[0,100000],"one_pass":true,"binary":true}"#.to_string(),
+            };
+            Cmd::Stream { query: rng.chance(1, 4), body }
+        }
+        3 => Cmd::Wait(rng.urange(1, 120)),
+        4 => Cmd::Stop(SRef::Known(rng.usize(6))),
+        _ => gen_cmd(rng),
+    }
+}
+
 pub fn gen_case(rng: &mut Rng, _tier: Tier) -> Case {
     let trace = gen_session_trace(rng, 400);
     let mut c = rng.sub("cmds");
     let n = c.urange(1, 25);
     let mut cmds = vec![];
+    if rng.sub("one_pass").chance(1, 6) {
+        cmds.push(Cmd::Open { variant: 0, sort: c.chance(1, 4), collect: "\"one_pass_streams\"".to_string() });
+        for _ in 0..n {
+            cmds.push(gen_one_pass_cmd(&mut c));
+        }
+        let mut sched = SchedCfg::gen(&mut rng.sub("sched"));
+        sched.max_steps = 6_000_000;
+        return Case { s: Session { trace, cmds, sched, server_max_read: *c.pick(&[0usize, 0, 1, 7, 100]), poll_budget: 30_000 } };
+    }
     if c.chance(4, 5) {
         cmds.push(Cmd::Open { variant: 0, sort: c.chance(1, 4), collect: (*c.pick(&["true", "true", "\"one_pass_streams\"", "false"])).to_string() });
     }
